@@ -80,7 +80,11 @@ func checkDQ(s string) {
 // and quoted identifiers into ARRAY( ) and leaves everything else alone.
 func H_C17_arrays() {
 	maxLen := 5 + verif.Tier()
-	s := verif.Str("s", maxLen, "[]'\"`a,1")
+	alpha := "[]'\"`a,1"
+	if verif.Choose("backslash", 2) == 1 {
+		alpha = "[]'\\\"a" // escapes inside literals: \\ \' \" before and between brackets
+	}
+	s := verif.Str("s", maxLen, alpha)
 	// the implementation runs first, on the still symbolic bytes
 	var out string
 	var err error
